@@ -204,7 +204,7 @@ def s_trashfail():
         st.tuples(st.just("send"), st.sampled_from([0, 0, 3, 1])),
         st.tuples(st.just("answer"), st.integers(0, 7), st.sampled_from(["rows", "rows", "void", "overloaded"])),
         st.tuples(st.just("advance"), st.sampled_from([0.35, 0.35, 0.75, 1.1, 2.5])),
-        st.tuples(st.just("kill"), st.integers(0, 2), st.sampled_from(["close", "reset"])),
+        st.tuples(st.just("kill"), st.integers(0, 2), st.sampled_from(["close", "reset", "eof"])),
     )
 
     @st.composite
